@@ -170,13 +170,26 @@ class FunctionLogger:
             raise ValueError(error_message.format(str(fval_orig)))
 
         # Check returned function SD
-        if self.he_noise_flag and (
-            not np.isfinite(fsd) or not np.isreal(fsd) or fsd <= 0.0
-        ):
-            error_message = """FunctionLogger:InvalidNoiseValue
+        if self.he_noise_flag:
+            if not np.isscalar(fsd) and np.size(fsd) == 1:
+                fsd = np.array(fsd).flat[0]
+            try:
+                invalid_sd = bool(
+                    not np.isscalar(fsd)
+                    or np.iscomplexobj(fsd)
+                    or not np.isfinite(fsd)
+                    or not np.isreal(fsd)
+                    or fsd <= 0.0
+                )
+            except TypeError:
+                # None, strings and other non-numeric objects
+                invalid_sd = True
+            if invalid_sd:
+                error_message = """FunctionLogger:InvalidNoiseValue
                 The returned estimated SD (second function output)
                 must be a finite, positive real-valued scalar (returned SD:{}"""
-            raise ValueError(error_message.format(str(fsd)))
+                raise ValueError(error_message.format(str(fsd)))
+            fsd = float(fsd)
 
         # Work with a Python float from here on (unsigned or narrow NumPy integer
         # types would wrap around / overflow in later differences of values)
